@@ -816,6 +816,29 @@ func c19OnlyPassedProposals(r *Rec) {
 		ctx := w.ReadCtx()
 		p, _ := k.GetProposal(ctx, pid)
 		now, _ := k.GetNetworkProperty(ctx, govtypes.MinTxFee)
+		// the model's verdict on the same ballot: quorum of the distinct carriers of the vote permission, float32 tally
+		{
+			carriers := len(k.GetNetworkActorsByAbsoluteWhitelistPermission(ctx, govtypes.PermVoteSetNetworkPropertyProposal))
+			var accs []string
+			for i := 0; i < carriers; i++ {
+				accs = append(accs, fmt.Sprint(i))
+			}
+			cnt := map[govtypes.VoteOption]int{}
+			other := 0
+			for _, o := range sh.opts {
+				switch o {
+				case govtypes.OptionYes, govtypes.OptionNo, govtypes.OptionAbstain, govtypes.OptionNoWithVeto:
+					cnt[o]++
+				default:
+					other++
+				}
+			}
+			out := resName(p.Result)
+			if out == "passed" {
+				out = "enactment" // observed after the enactment delay
+			}
+			r.Op(fmt.Sprintf("gov local-tally q=%s accs=%s role=- y=%d n=%d a=%d v=%d o=%d", k.GetNetworkProperties(ctx).VoteQuorum.String(), strings.Join(accs, ","), cnt[govtypes.OptionYes], cnt[govtypes.OptionNo], cnt[govtypes.OptionAbstain], cnt[govtypes.OptionNoWithVeto], other), out)
+		}
 		r.Count("oracle:C19/only-passed")
 		r.Count(fmt.Sprintf("only-passed:%s", resName(p.Result)))
 		r.Case(fmt.Sprintf("only-passed/%d/%s", si, resName(p.Result)), true)
